@@ -68,6 +68,8 @@ def cases() -> Any:
         "same_id": st.sampled_from([False, False, True]),
         # every message carries a nested mutable argument for an un-annotated parameter which its execution changes in place
         "bag": st.sampled_from([False, True]),
+        # the task has a parameter filled by a cached Context-reading dependency; the FIRST message passes a value for it explicitly
+        "explicit_dep": st.sampled_from([False, False, True]),
         # the second delivery is a byte-identical copy of the first one (a redelivered message)
         "dup_payload": st.sampled_from([False, False, True]),
         # every message carries a label `prio`: typed (int, with a labels_types entry) as taskiq's own client sends it, or - for
@@ -118,6 +120,7 @@ def run_case(c: Dict[str, Any]) -> Outcome:
     boxes: Dict[Any, List[Any]] = {}
     seen_labels: Dict[Any, List[Any]] = {}
     bags: Dict[Any, List[Any]] = {}
+    whos: Dict[Any, List[Any]] = {}
     cur: Dict[Any, int] = {}
     spans: Dict[int, List[float]] = {}
 
@@ -131,6 +134,8 @@ def run_case(c: Dict[str, Any]) -> Outcome:
             seen_labels.setdefault(k, []).append(payload[0])
         elif kind == "bag":
             bags.setdefault(k, []).append(payload[0])
+        elif kind == "who":
+            whos.setdefault(k, []).append(payload[0])
 
     res: Dict[str, Any] = {}
 
@@ -162,7 +167,7 @@ def run_case(c: Dict[str, Any]) -> Outcome:
         b.result_backend = rb
         if c.get("custom_ctx"):
             b.add_dependency_context({Marker: Marker()})
-        mod, task, src = dg.build(nodes, tdeps, {"kind": "ret", "replacements": c.get("overrides") or [], "box": c.get("box"), "bag": c.get("bag"), "no_task_ctx": c.get("no_task_ctx"),
+        mod, task, src = dg.build(nodes, tdeps, {"kind": "ret", "replacements": c.get("overrides") or [], "box": c.get("box"), "bag": c.get("bag"), "who_dep": c.get("explicit_dep"), "no_task_ctx": c.get("no_task_ctx"),
                                                        "requeue_first": c.get("requeue_first") and c.get("no_labels")}, LOG)
         for ri, rep in enumerate(c.get("overrides") or []):
             b.dependency_overrides[getattr(mod, f"n{rep['target']}")] = getattr(mod, f"r{ri}")
@@ -175,6 +180,8 @@ def run_case(c: Dict[str, Any]) -> Outcome:
             kw = {"box": "1,2"} if c.get("box") and not plain else {}     # the same wire value in every message
             if c.get("bag") and not plain:
                 kw["bag"] = {"items": [1, 2]}
+            if c.get("explicit_dep") and not plain and k == 0:
+                kw["who"] = "given-by-caller-0"
             own_labels = labels_of(k)
             tm_ = AsyncKicker("plain" if plain else "t", b, dict(own_labels)).with_task_id(tid_of(k))._prepare_message(k, slp, **kw)
             if is_untyped(k):
@@ -225,6 +232,12 @@ def run_case(c: Dict[str, Any]) -> Outcome:
             if bx != [1, 2, src(k)]:
                 out.add("C06.a", f"execution of message id{k} appended its own id to its list argument (sent in the short form '1,2') and later "
                                  f"observed {bx}: the argument object is shared with another execution")
+    for k, wl in sorted(whos.items(), key=lambda kv: str(kv[0])):
+        want_who = "given-by-caller-0" if src(k) == 0 else tid_of(k)
+        for w_ in wl:
+            if w_ != want_who:
+                out.add("C06.a", f"execution #{k} (task id {tid_of(k)}) got {w_!r} for its injected parameter, expected {want_who!r} "
+                                 f"(message 0 passed the value 'given-by-caller-0' for that parameter explicitly)")
     for k, bl in sorted(bags.items(), key=lambda kv: str(kv[0])):
         for bg in bl:
             if bg != [1, 2, "x"]:
@@ -259,7 +272,7 @@ def run_case(c: Dict[str, Any]) -> Outcome:
             if not uc and (nodes[j]["ctx"] or any(nodes[d]["ctx"] for d in dg.descendants(nodes, j))):
                 risky = True
     out.nontrivial = bool(overlap and risky)
-    out.classes = [c_ for c_, f in (("overlap", overlap), ("uncached_ctx_reader", risky), ("custom_ctx", c.get("custom_ctx")), ("dependency_overrides", bool(c.get("overrides"))), ("context_only_via_dependencies", bool(c.get("no_task_ctx"))), ("label_less_messages", bool(c.get("no_labels"))), ("two_messages_same_task_id", bool(c.get("same_id"))), ("byte_identical_redelivery", bool(c.get("dup_payload"))), ("nested_mutable_argument", bool(c.get("bag"))), ("typed_and_untyped_label_messages", bool(c.get("untyped")) and len({is_untyped(k) for k in range(len(msgs))}) == 2),
+    out.classes = [c_ for c_, f in (("overlap", overlap), ("uncached_ctx_reader", risky), ("custom_ctx", c.get("custom_ctx")), ("dependency_overrides", bool(c.get("overrides"))), ("context_only_via_dependencies", bool(c.get("no_task_ctx"))), ("label_less_messages", bool(c.get("no_labels"))), ("two_messages_same_task_id", bool(c.get("same_id"))), ("byte_identical_redelivery", bool(c.get("dup_payload"))), ("nested_mutable_argument", bool(c.get("bag"))), ("explicit_value_for_injected_parameter", bool(c.get("explicit_dep"))), ("typed_and_untyped_label_messages", bool(c.get("untyped")) and len({is_untyped(k) for k in range(len(msgs))}) == 2),
                                     ("generator_style", any(nodes[i]["style"] in dg.YIELDING for i in reach))) if f]
     out.trace = {"echoes": {str(k): [list(e[:3]) for e in v[:6]] for k, v in echoes.items()}, "spans": {str(k): v for k, v in spans.items()}}
     return out
